@@ -15,7 +15,8 @@ from .index import ClassInfo, Module, Program, Unknown, unparse
 
 SAFE_BUILTINS = {"len": len, "min": min, "max": max, "abs": abs, "int": int, "bool": bool, "str": str, "bytes": bytes,
                  "list": list, "tuple": tuple, "set": set, "sorted": sorted, "range": range, "round": round, "any": any,
-                 "all": all, "sum": sum, "isinstance": None, "frozenset": frozenset, "dict": dict, "float": float}
+                 "all": all, "sum": sum, "isinstance": None, "frozenset": frozenset, "dict": dict, "float": float,
+                 "enumerate": lambda *a: list(enumerate(*a)), "zip": lambda *a: list(zip(*a)), "reversed": lambda x: list(reversed(x)), "divmod": divmod}
 SAFE_METHODS = {"lower", "upper", "index", "get", "startswith", "endswith", "encode", "decode", "split", "strip",
                 "keys", "values", "items", "count", "join", "find", "hex", "bit_length", "copy", "issubset", "union",
                 "intersection", "add", "discard", "append", "pop", "remove", "extend", "update", "setdefault", "clear", "splitlines", "rstrip", "lstrip",
@@ -166,6 +167,11 @@ class Evaluator:
             return out
         if isinstance(e, ast.Await):
             return self.ev(e.value)
+        if isinstance(e, ast.Yield):
+            # generators are evaluated eagerly: the yielded values are collected and handed to the caller as a list
+            # (sound only when the generator does not depend on what the consumer does between two yields)
+            self.env.setdefault("__yields__", []).append(self.ev(e.value) if e.value is not None else None)
+            return None
         if isinstance(e, ast.Call):
             return self._call(e)
         if isinstance(e, (ast.ListComp, ast.SetComp, ast.GeneratorExp)) and len(e.generators) == 1:
@@ -287,11 +293,12 @@ class Evaluator:
             sub.env[p] = v
         for k, v in (kwargs or {}).items():
             sub.env[k] = v
+        gen = is_generator(fi.node)
         try:
             sub.exec_block(fi.node.body)
         except Ret as r:
-            return r.value
-        return None
+            return sub.env.get("__yields__", []) if gen else r.value
+        return sub.env.get("__yields__", []) if gen else None
 
     # ------------------------------------------------------------ statements (pure fragment)
     def exec_block(self, body: List[ast.stmt]) -> None:
@@ -327,17 +334,22 @@ class Evaluator:
                 self.exec_block(s.orelse)
             return
         if isinstance(s, ast.For):
+            broke = False
             for item in self.ev(s.iter):
                 self._bind(s.target, item)
                 try:
                     self.exec_block(s.body)
                 except _Break:
+                    broke = True
                     break
                 except _Continue:
                     continue
+            if not broke and s.orelse:
+                self.exec_block(s.orelse)
             return
         if isinstance(s, ast.While):
             n = 0
+            broke = False
             while self.ev(s.test):
                 n += 1
                 if n > 10000:
@@ -345,9 +357,12 @@ class Evaluator:
                 try:
                     self.exec_block(s.body)
                 except _Break:
+                    broke = True
                     break
                 except _Continue:
                     continue
+            if not broke and s.orelse:
+                self.exec_block(s.orelse)
             return
         if isinstance(s, ast.Break):
             raise _Break()
@@ -383,6 +398,18 @@ class Evaluator:
                     self.exec_block(s.finalbody)
             return
         raise Unknown(f"statement {type(s).__name__}")
+
+
+def is_generator(node: ast.AST) -> bool:
+    stack = list(ast.iter_child_nodes(node))
+    while stack:
+        n = stack.pop()
+        if isinstance(n, (ast.Yield, ast.YieldFrom)):
+            return True
+        if isinstance(n, (ast.FunctionDef, ast.AsyncFunctionDef, ast.Lambda, ast.ClassDef)):
+            continue
+        stack.extend(ast.iter_child_nodes(n))
+    return False
 
 
 class _Closure:
